@@ -1,7 +1,324 @@
 import M3d.Basic
-/-! Line-protocol handler for C07. Core-only. (stub) -/
-namespace M3d.Drv.C07
+import M3d.Model.Collide
+/-!
+Line-protocol handler for C07.  Core-only; runs the models of `M3d/Model/Collide.lean`
+* at `Rat` for the `…x` kinds (exact mode: dyadic inputs on which every Go float operation is exact),
+* at `Float` for the `…b` kinds (bits mode: same IEEE operations in the same order as the Go code),
+and evaluates the contract predicate `M3d.Col.obsVerdict` (the Boolean `obsOk` of `Props/C07.contract_obs`)
+on observations of the real code for the `obs2` / `obs3` kinds.
 
-def handleAll (ws : List String) : Option String := none
+Kinds (see notes/C07.md):
+  obs3|obs2 <collider-kind> (fail | n0 n1 ok first t…)    contract on an observation (bits → exact Rat)
+  rectx  lo hi o d                    Rect.RayCollisions + FirstRayCollision               (Rat)
+  trix   a b c o d                    Triangle.RayCollisions + FirstRayCollision           (Rat)
+  seg2x  s0 s1 o d                    2-D Segment.RayCollisions + FirstRayCollision        (Rat)
+  joinx  n (a b c)… o d               soup of triangles: concatenation / min, canonically sorted (Rat)
+  profx  n (s0 s1)… minZ maxZ o d     profileCollider over a 2-D segment soup               (Rat)
+  ballx  a b c ctr r                  Triangle.SphereCollision = squared distance < r²      (Rat, spec)
+  circx  s0 s1 ctr r                  2-D Segment.CircleCollision = squared distance < r²   (Rat, spec)
+  segx   a b c s0 s1                  Triangle.SegmentCollision                             (Rat)
+  sphereb c r o d | trib a b c o d | seg2b s0 s1 o d | rectb lo hi o d | planeb n bias o d |
+  circleb n c r o d | cylb p1 p2 r o d | capb p1 p2 r o d                                  (Float bits)
+-/
+namespace M3d.Drv.C07
+open M3d M3d.Col
+
+abbrev Q := Rat
+
+/-! ### square roots -/
+
+/-- `math.Sqrt` for the exact mode: exact on squares of rationals; otherwise accurate to 2⁻⁶⁰ relative
+(only ever compared against thresholds that the inputs keep far away). -/
+def sqrtQ (q : Q) : Q :=
+  if q ≤ 0 then 0 else
+  let n := q.num.toNat
+  let d := q.den
+  let rn := Nat.sqrt n
+  let rd := Nat.sqrt d
+  if rn * rn = n ∧ rd * rd = d then (rn : Q) / (rd : Q)
+  else
+    -- scale so that the integer square root carries ≥ 60 fractional bits
+    let k : Nat := 2 ^ 160
+    ((Nat.sqrt (n * k / d) : Nat) : Q) / ((2 : Q) ^ 80)
+
+def epsQ : Q := (1 : Q) / 100000000
+/-- the double nearest to 1e-8 (Go's constant `1e-8`) -/
+def epsF : Float := Float.ofBits 0x3e45798ee2308c3a
+
+/-! ### parsing -/
+
+abbrev P (_σ α : Type) := List String → Option (α × List String)
+
+def pScalar {σ : Type} (rd : String → Option σ) : P σ σ
+  | w :: ws => (rd w).map (·, ws)
+  | [] => none
+
+def pV3 {σ : Type} (rd : String → Option σ) : P σ (V3 σ) := fun ws => do
+  let (x, ws) ← pScalar rd ws
+  let (y, ws) ← pScalar rd ws
+  let (z, ws) ← pScalar rd ws
+  some (⟨x, y, z⟩, ws)
+
+def pV2 {σ : Type} (rd : String → Option σ) : P σ (V2 σ) := fun ws => do
+  let (x, ws) ← pScalar rd ws
+  let (y, ws) ← pScalar rd ws
+  some (⟨x, y⟩, ws)
+
+def pNat : List String → Option (Nat × List String)
+  | w :: ws => w.toNat?.map (·, ws)
+  | [] => none
+
+/-! ### printing -/
+
+def showHit {σ : Type} (sh : σ → String) (h : Hit σ) : String :=
+  s!"{sh h.t} {sh h.n.x} {sh h.n.y} {sh h.n.z}"
+
+def showHit2 {σ : Type} (sh : σ → String) (h : Hit2 σ) : String :=
+  s!"{sh h.t} {sh h.n.x} {sh h.n.y}"
+
+/-- `n0 n1 T hit … F (0 | 1 hit)` -/
+def showRun {σ H : Type} (shH : H → String) (c : Collider σ H) (r : σ) : String :=
+  let with_ := c.ray r true
+  let without := c.ray r false
+  let hits := " ".intercalate (with_.2.map fun h => "T " ++ shH h)
+  let first := match c.first r with
+    | none => "F 0"
+    | some h => "F 1 " ++ shH h
+  s!"{without.1} {with_.1} {hits} {first}"
+
+/-! ### observations: the contract predicate -/
+
+def ratOfHex (s : String) : Option Q := (parseHex s).bind fun n => ratOfBits n.toUInt64
+
+def handleObs (ws : List String) : Option String :=
+  match ws with
+  | _kind :: "fail" :: _ => some "viol:panic-or-timeout"
+  | _kind :: n0 :: n1 :: ok :: first :: ts => do
+      let n0 ← n0.toNat?
+      let n1 ← n1.toNat?
+      let okb ← if ok = "1" then some true else if ok = "0" then some false else none
+      match ts.mapM ratOfHex with
+      | none => some "viol:nonfinite-parameter"
+      | some tq =>
+        let fq := (ratOfHex first).getD 0
+        if okb && (ratOfHex first).isNone then some "viol:nonfinite-first"
+        else
+          let v := obsVerdict n0 n1 okb fq tq
+          some (if v = "ok" then "ok" else "viol:" ++ v)
+  | _ => none
+
+/-! ### generic handlers (σ = Rat or Float) -/
+
+section Generic
+variable {σ : Type} [Add σ] [Sub σ] [Mul σ] [Div σ] [Neg σ] [LT σ] [LE σ] [DecidableLT σ] [DecidableLE σ]
+  [OfNat σ 0] [OfNat σ 1]
+
+def hRect (rd : String → Option σ) (sh : σ → String) (ws : List String) : Option String := do
+  let (lo, ws) ← pV3 rd ws
+  let (hi, ws) ← pV3 rd ws
+  let (o, ws) ← pV3 rd ws
+  let (d, ws) ← pV3 rd ws
+  if !ws.isEmpty then none
+  some (showRun (showHit sh) (rectCollider lo hi) (o, d))
+
+def hTri (sq : σ → σ) (eps : σ) (rd : String → Option σ) (sh : σ → String) (ws : List String) : Option String := do
+  let (a, ws) ← pV3 rd ws
+  let (b, ws) ← pV3 rd ws
+  let (c, ws) ← pV3 rd ws
+  let (o, ws) ← pV3 rd ws
+  let (d, ws) ← pV3 rd ws
+  if !ws.isEmpty then none
+  let bary := match triRay sq eps a b c o d with
+    | none => "B 0"
+    | some s => s!"B 1 {sh s.u} {sh s.v} {sh s.t}"
+  some (showRun (showHit sh) (triCollider sq eps a b c) (o, d) ++ " " ++ bary)
+
+def hSeg2 (sq : σ → σ) (eps : σ) (rd : String → Option σ) (sh : σ → String) (ws : List String) : Option String := do
+  let (s0, ws) ← pV2 rd ws
+  let (s1, ws) ← pV2 rd ws
+  let (o, ws) ← pV2 rd ws
+  let (d, ws) ← pV2 rd ws
+  if !ws.isEmpty then none
+  some (showRun (showHit2 sh) (seg2Collider sq eps s0 s1) (o, d))
+
+def hSphere (sq : σ → σ) (rd : String → Option σ) (sh : σ → String) (ws : List String) : Option String := do
+  let (c, ws) ← pV3 rd ws
+  let (r, ws) ← pScalar rd ws
+  let (o, ws) ← pV3 rd ws
+  let (d, ws) ← pV3 rd ws
+  if !ws.isEmpty then none
+  some (showRun (showHit sh) (sphereCollider sq c r) (o, d))
+
+def hPlane (sq : σ → σ) (eps : σ) (rd : String → Option σ) (sh : σ → String) (ws : List String) : Option String := do
+  let (n, ws) ← pV3 rd ws
+  let (bias, ws) ← pScalar rd ws
+  let (o, ws) ← pV3 rd ws
+  let (d, ws) ← pV3 rd ws
+  if !ws.isEmpty then none
+  some (match castPlane sq eps n bias o d with
+    | none => "0"
+    | some t => s!"1 {sh t}")
+
+def hCircle (sq : σ → σ) (eps : σ) (rd : String → Option σ) (sh : σ → String) (ws : List String) : Option String := do
+  let (n, ws) ← pV3 rd ws
+  let (c, ws) ← pV3 rd ws
+  let (r, ws) ← pScalar rd ws
+  let (o, ws) ← pV3 rd ws
+  let (d, ws) ← pV3 rd ws
+  if !ws.isEmpty then none
+  some (match castCircle sq eps n c r o d with
+    | none => "0"
+    | some h => s!"1 {showHit sh h}")
+
+def hCyl (sq : σ → σ) (eps : σ) (rd : String → Option σ) (sh : σ → String) (ws : List String) : Option String := do
+  let (p1, ws) ← pV3 rd ws
+  let (p2, ws) ← pV3 rd ws
+  let (r, ws) ← pScalar rd ws
+  let (o, ws) ← pV3 rd ws
+  let (d, ws) ← pV3 rd ws
+  if !ws.isEmpty then none
+  some (showRun (showHit sh) (cylCollider sq eps p1 p2 r) (o, d))
+
+def hCap (sq : σ → σ) (rd : String → Option σ) (sh : σ → String) (ws : List String) : Option String := do
+  let (p1, ws) ← pV3 rd ws
+  let (p2, ws) ← pV3 rd ws
+  let (r, ws) ← pScalar rd ws
+  let (o, ws) ← pV3 rd ws
+  let (d, ws) ← pV3 rd ws
+  if !ws.isEmpty then none
+  some (showRun (showHit sh) (capsuleCollider sq p1 p2 r) (o, d) ++ " I " ++
+    boolStr (capsuleContains sq p1 p2 r o))
+
+end Generic
+
+/-! ### exact-mode only kinds -/
+
+def ratLt (a b : Q) : Bool := decide (a < b)
+
+/-- canonical order of hits (the BVH decides the traversal order in Go; the harness sorts the same way) -/
+def hitLt (a b : Hit Q) : Bool :=
+  ratLt a.t b.t || (a.t == b.t && (ratLt a.n.x b.n.x || (a.n.x == b.n.x && (ratLt a.n.y b.n.y ||
+    (a.n.y == b.n.y && ratLt a.n.z b.n.z)))))
+
+def pTris : Nat → P Q (List (V3 Q × V3 Q × V3 Q))
+  | 0, ws => some ([], ws)
+  | n + 1, ws => do
+      let (a, ws) ← pV3 parseRat ws
+      let (b, ws) ← pV3 parseRat ws
+      let (c, ws) ← pV3 parseRat ws
+      let (rest, ws) ← pTris n ws
+      some ((a, b, c) :: rest, ws)
+
+def pSegs : Nat → P Q (List (V2 Q × V2 Q))
+  | 0, ws => some ([], ws)
+  | n + 1, ws => do
+      let (a, ws) ← pV2 parseRat ws
+      let (b, ws) ← pV2 parseRat ws
+      let (rest, ws) ← pSegs n ws
+      some ((a, b) :: rest, ws)
+
+/-- soup of triangles: the joined collider with an always-admitting prefilter is the brute-force answer
+(`joined_contract`: concatenation, sum, minimum); callbacks are printed in canonical order. -/
+def hJoin (ws : List String) : Option String := do
+  let (n, ws) ← pNat ws
+  let (tris, ws) ← pTris n ws
+  let (o, ws) ← pV3 parseRat ws
+  let (d, ws) ← pV3 parseRat ws
+  if !ws.isEmpty then none
+  let parts := tris.map fun (a, b, c) => triCollider sqrtQ epsQ a b c
+  let j : Collider (V3 Q × V3 Q) (Hit Q) := joined Hit.t (fun _ => true) parts
+  let with_ := j.ray (o, d) true
+  let without := j.ray (o, d) false
+  let hits := " ".intercalate ((sortBy hitLt with_.2).map fun h => "T " ++ showHit showRat h)
+  -- the first collision: only the parameter is canonical when several triangles tie
+  let first := match j.first (o, d) with
+    | none => "F 0"
+    | some h => "F 1 " ++ showRat h.t
+  some s!"{without.1} {with_.1} {hits} {first}"
+
+/-- the fixed direction of `model2d.ColliderContains` -/
+def containsDir2 : V2 Q :=
+  ⟨(ratOfBits 0x3fe0b83b6b5b6586).getD 0, (ratOfBits 0x3fbadda91d7b7320).getD 0⟩
+
+def hProf (ws : List String) : Option String := do
+  let (n, ws) ← pNat ws
+  let (segs, ws) ← pSegs n ws
+  let (minZ, ws) ← pScalar parseRat ws
+  let (maxZ, ws) ← pScalar parseRat ws
+  let (o, ws) ← pV3 parseRat ws
+  let (d, ws) ← pV3 parseRat ws
+  if !ws.isEmpty then none
+  let ray2 : V2 Q → V2 Q → List (Hit2 Q) := fun o2 d2 =>
+    segs.flatMap fun (s0, s1) => seg2Hits sqrtQ epsQ s0 s1 o2 d2
+  -- Solid2D = NewColliderSolid(coll2d): in bounds and an odd number of crossings along the fixed direction
+  let lo : V2 Q := segs.foldl (fun m (a, b) => ⟨min m.x (min a.x b.x), min m.y (min a.y b.y)⟩)
+    (match segs with | (a, _) :: _ => a | [] => ⟨0, 0⟩)
+  let hi : V2 Q := segs.foldl (fun m (a, b) => ⟨max m.x (max a.x b.x), max m.y (max a.y b.y)⟩)
+    (match segs with | (a, _) :: _ => a | [] => ⟨0, 0⟩)
+  let solid2 : V2 Q → Bool := fun p =>
+    decide (lo.x ≤ p.x) && decide (p.x ≤ hi.x) && decide (lo.y ≤ p.y) && decide (p.y ≤ hi.y) &&
+      ((ray2 p containsDir2).length % 2 == 1)
+  let c := profileCollider ray2 solid2 minZ maxZ
+  let with_ := c.ray (o, d) true
+  let without := c.ray (o, d) false
+  let hits := " ".intercalate ((sortBy hitLt with_.2).map fun h => "T " ++ showHit showRat h)
+  let first := match c.first (o, d) with
+    | none => "F 0"
+    | some h => "F 1 " ++ showRat h.t
+  some s!"{without.1} {with_.1} {hits} {first}"
+
+/-- `Triangle.SphereCollision`: the answer the property demands (some point of the triangle at squared
+distance `< r²`), refused if the faithful model of the Go method disagrees with it. -/
+def hBall (ws : List String) : Option String := do
+  let (a, ws) ← pV3 parseRat ws
+  let (b, ws) ← pV3 parseRat ws
+  let (c, ws) ← pV3 parseRat ws
+  let (ctr, ws) ← pV3 parseRat ws
+  let (r, ws) ← pScalar parseRat ws
+  if !ws.isEmpty then none
+  let spec := triBallSpec a b c ctr (r * r)
+  let model := triSphere sqrtQ epsQ a b c ctr r
+  some (if spec == model then boolStr spec else s!"MODEL-NE-SPEC spec={boolStr spec} model={boolStr model}")
+
+def hCirc (ws : List String) : Option String := do
+  let (s0, ws) ← pV2 parseRat ws
+  let (s1, ws) ← pV2 parseRat ws
+  let (ctr, ws) ← pV2 parseRat ws
+  let (r, ws) ← pScalar parseRat ws
+  if !ws.isEmpty then none
+  let spec := seg2BallSpec s0 s1 ctr (r * r)
+  let model := seg2Circle sqrtQ s0 s1 ctr r
+  some (if spec == model then boolStr spec else s!"MODEL-NE-SPEC spec={boolStr spec} model={boolStr model}")
+
+def hSegx (ws : List String) : Option String := do
+  let (a, ws) ← pV3 parseRat ws
+  let (b, ws) ← pV3 parseRat ws
+  let (c, ws) ← pV3 parseRat ws
+  let (s0, ws) ← pV3 parseRat ws
+  let (s1, ws) ← pV3 parseRat ws
+  if !ws.isEmpty then none
+  some (boolStr (triSegment sqrtQ epsQ a b c s0 s1))
+
+def handleAll (ws : List String) : Option String :=
+  match ws with
+  | "obs3" :: rest => handleObs rest
+  | "obs2" :: rest => handleObs rest
+  | "rectx" :: rest => hRect parseRat showRat rest
+  | "trix" :: rest => hTri sqrtQ epsQ parseRat showRat rest
+  | "seg2x" :: rest => hSeg2 sqrtQ epsQ parseRat showRat rest
+  | "joinx" :: rest => hJoin rest
+  | "profx" :: rest => hProf rest
+  | "ballx" :: rest => hBall rest
+  | "circx" :: rest => hCirc rest
+  | "segx" :: rest => hSegx rest
+  | "rectb" :: rest => hRect floatOfHex hexOfFloat rest
+  | "trib" :: rest => hTri Float.sqrt epsF floatOfHex hexOfFloat rest
+  | "seg2b" :: rest => hSeg2 Float.sqrt epsF floatOfHex hexOfFloat rest
+  | "sphereb" :: rest => hSphere Float.sqrt floatOfHex hexOfFloat rest
+  | "planeb" :: rest => hPlane Float.sqrt epsF floatOfHex hexOfFloat rest
+  | "circleb" :: rest => hCircle Float.sqrt epsF floatOfHex hexOfFloat rest
+  | "cylb" :: rest => hCyl Float.sqrt epsF floatOfHex hexOfFloat rest
+  | "capb" :: rest => hCap Float.sqrt floatOfHex hexOfFloat rest
+  | _ => none
 
 end M3d.Drv.C07
